@@ -689,6 +689,10 @@ def alias(root, params):
                         (immut(init.get("id")) or (init.get("id") in modes and "Ref" not in modes[init.get("id")] and not written_in(rest, init.get("id")))):
                     ren[s["pat"]["id"]] = init
                     continue
+                if isinstance(init, dict) and immut(s["pat"].get("id")) and s.get("norm") == "unrolled" and \
+                        (init.get("k") == "lit" or (init.get("k") == "def" and init.get("dk") in ("Const", "AssocConst"))):
+                    ren[s["pat"]["id"]] = init          # an element of an unrolled const table: the constant itself
+                    continue
             out.append(s)
         return dict(n, stmts=out)
     root = map_tree(root, fn)
@@ -705,6 +709,8 @@ def alias(root, params):
     def sub(n):
         if n.get("k") == "local" and n.get("id") in ren:
             t = resolve(n["id"])
+            if t.get("k") != "local":
+                return dict(copy.deepcopy(t), ln=n.get("ln", t.get("ln")))
             return dict(n, name=t["name"], id=t["id"])
         return n
     return map_tree(root, sub)
@@ -815,6 +821,59 @@ def _explicit_try(ids):
     return fn
 
 
+def unroll_const_loops(root, const_bodies, ids, limit=32):
+    """`for PAT in TABLE { BODY }` over a const array of at most `limit` pure elements, with no break/continue in BODY, is
+    `{ let PAT = TABLE[0]; BODY } { let PAT = TABLE[1]; BODY } ...` — the table and the statements it stands for read the same."""
+    def elements(e):
+        e = hir.peel(hir.simp(e))
+        if e.get("k") == "call" and not e.get("ctor") and len(e.get("args", [])) == 1 and \
+                str(e.get("resolved") or e.get("callee") or "").split("::")[-1] in ("iter", "into_iter"):
+            e = hir.peel(hir.simp(e["args"][0]))
+        if e.get("k") != "def" or e.get("path") not in const_bodies:
+            return None
+        arr = hir.simp(const_bodies[e["path"]])
+        while isinstance(arr, dict) and arr.get("k") == "ref":
+            arr = hir.simp(arr["e"])
+        if not (isinstance(arr, dict) and arr.get("k") == "array" and 0 < len(arr.get("es", [])) <= limit and all(pure(x) for x in arr["es"])):
+            return None
+        return arr["es"], e
+
+    def fn(n):
+        if not (n.get("k") == "match" and n.get("src") == "ForLoopDesugar"):
+            return n
+        try:
+            fl = hir.for_loop(n)
+        except Exception:
+            return n
+        if not fl:
+            return n
+        pat, it, body = fl
+        got = elements(it)
+        if got is None:
+            return n
+        es, tab = got
+        by_ref = str(hir.simp(it).get("ty", "")).startswith("&") or "Iter<" in str(hir.simp(it).get("ty", "")) or \
+            (hir.simp(it).get("k") == "call" and str(hir.simp(it).get("callee", "")).endswith("::iter"))
+        for x in nodes_outside_closures(body):
+            if x.get("k") in ("break", "continue"):
+                return n          # (a `return` leaves the function in both forms)
+        out = []
+        for el in es:
+            off = ids.next() * 1000
+            p2, b2 = copy.deepcopy(pat), copy.deepcopy(body)
+            bound = {x.get("id") for x in list(all_nodes(p2)) + list(all_nodes(b2)) if x.get("k") == "pbind" and isinstance(x.get("id"), int)}
+            for x in list(all_nodes(p2)) + list(all_nodes(b2)):
+                if x.get("k") in ("local", "pbind") and x.get("id") in bound:
+                    x["id"] += off
+            init = copy.deepcopy(el)
+            if by_ref:
+                init = {"k": "ref", "mut": False, "e": init, "ln": n.get("ln"), "ty": "&" + str(el.get("ty", "_"))}
+            out.append({"k": "block", "stmts": [{"k": "let", "pat": p2, "init": init, "ln": n.get("ln"), "norm": "unrolled"}, b2],
+                        "ln": n.get("ln"), "ty": "()", "norm": "unrolled", "unrolled_from": tab["path"]})
+        return {"k": "block", "stmts": out, "ln": n.get("ln"), "ty": "()", "norm": "unrolled"}
+    return map_tree(root, fn)
+
+
 def split_tuple_lets(root):
     """`let (a, b) = (x, y);` with pure x, y -> `let a = x; let b = y;` (locals are id-resolved, so a swap stays a swap)."""
     def fn(n):
@@ -828,7 +887,7 @@ def split_tuple_lets(root):
                 if subs is not None and i_.get("k") == "tuple" and len(i_.get("es", [])) == len(subs) and len(subs) > 0 \
                         and all(q.get("k") == "pbind" and "sub" not in q for q in subs) and all(pure(x) for x in i_["es"]):
                     for q, x in zip(subs, i_["es"]):
-                        out.append({"k": "let", "pat": q, "init": x, "ln": s.get("ln"), "norm": "tuple-let"})
+                        out.append({"k": "let", "pat": q, "init": x, "ln": s.get("ln"), "norm": "unrolled" if s.get("norm") == "unrolled" else "tuple-let"})
                     changed = True
                     continue
             out.append(s)
@@ -1240,6 +1299,7 @@ def normalise_crate(name, crate):
             if it.get("dk") in ("Const", "AssocConst") and it["path"] not in refc and isinstance(it.get("value"), (int, bool, str)):
                 newc[it["path"]] = it["value"]
     crate["folded_consts"] = sorted(newc)
+    const_bodies = {b["path"]: b["hir_raw"] for b in bodies if b.get("kind") in ("Const", "AssocConst")}
     for b in bodies:
         ids = Ids(1_000_000)
         h = copy.deepcopy(b["hir_raw"])
@@ -1249,6 +1309,7 @@ def normalise_crate(name, crate):
         h = map_tree(h, _then_some)
         h = map_tree(h, _try_for_each(ids))
         h = map_tree(h, _explicit_try(ids))
+        h = unroll_const_loops(h, const_bodies, ids)
         b["hir_pre"] = h
     for b in bodies:
         h = b.pop("hir_pre")
